@@ -323,9 +323,21 @@ class Ctx:
             # a proof obligation or correspondence no longer checks and the search found no failing input
             h = hashlib.md5(json.dumps(self.broken, sort_keys=True, default=str).encode()).hexdigest()[:10]
             rp = os.path.join('replays', f'{self.pid}-broken-{h}.json')
+            # when the generated parts of the model changed, say how: the diff of the translated source / tables against
+            # the committed (reviewed) version usually names the edited python function
+            gen_diff = None
+            try:
+                g = subprocess.run(['git', 'diff', '--no-color', '-U1', '--', 'lean/Kingdon/Generated'], cwd=VERIF,
+                                   capture_output=True, text=True, timeout=60).stdout
+                if g.strip():
+                    gen_diff = g.split('\n')[:120]
+            except Exception:
+                pass
             with open(os.path.join(VERIF, rp), 'w') as f:
                 json.dump({'property': self.pid, 'seed': self.seed, 'tier': self.tier,
                            'no_failing_input_found': True, 'broken': self.broken[:20],
+                           'generated_model_diff_vs_committed': gen_diff,
+                           'translation_report': {k: v for k, v in (getattr(Lean, 'translation', {}) or {}).items() if v != 'ok'},
                            'searched': {'evaluations': self.evaluations, 'rule': self.rule}}, f, indent=1, default=str)
             lines.append(f'VIOLATION property={self.pid} replay={rp} no-failing-input-found')
             nviol += 1
